@@ -46,14 +46,12 @@ ASSUMPTIONS = [
     'exact-regime hypothesis of the theorems; other inputs are discarded and counted)',
 ]
 OPEN_STATEMENTS = [
-    'square_reconstruct: PROVED in the exact regime as a matrix product (square_reconstruct_product): with U^dagger the matrix '
-    'obtained by applying the RECORDED rotations (each rebuilt from its returned (theta, phi) as the docstring matrix) to the '
-    'identity, Q U^dagger = D with |D_ii| = 1, D the returned diagonal.  givens_reconstruct (m < n): proved that the matrix '
-    'produced by the elementary updates is (D | 0) with unit-modulus diagonal (givens_decomposition_diagonalises) and that the '
-    'column stage is right multiplication by the recorded rotations (colSweep_applied, applyCols_mul); NOT formalised: the row '
-    'stage as left multiplication by the returned left_unitary V (same argument with rotateRows), and the case m = n.  The '
-    'exact-regime hypothesis (SweepExact / LeftExact) is evaluated per input by the driver (op c11.hypotheses), not proved from '
-    'the input.',
+    'square_reconstruct and givens_reconstruct (m < n): PROVED in the exact regime as matrix products '
+    '(square_reconstruct_product, givens_reconstruct_product): with V the returned left_unitary and U^dagger the matrix obtained '
+    'by applying the RECORDED rotations (each rebuilt from its returned (theta, phi) as the docstring matrix) to the identity, '
+    'Q U^dagger = D resp. V Q U^dagger = (D | 0), |D_ii| = 1, D the returned diagonal.  Not formalised: unitarity of V as a '
+    'separate statement (row orthonormality of V Q is proved), the case m = n of givens_decomposition (left stage only), and the '
+    'exact-regime hypothesis itself, which the driver evaluates per input (op c11.hypotheses) rather than deriving it.',
     'gaussian_reconstruct (V W U^dagger = (0|D)) : not proved; FALSE on the real code when the left N x N block of W is '
     'singular (known finding F11, kernel-checked counterexample on the Model); open for a non-singular left block.  The hypothesis '
     'a proof needs is stronger than non-singularity of the input: at every particle-hole step the pivot current[k/2, N-1] must be '
